@@ -109,7 +109,11 @@ def isReadOp : PollAdapter.Op → Bool
 
 def step (sut : Sut) (line : String) : Sut × String :=
   if line.startsWith "#case" then (.none, line.trimAscii.toString) else
-  match words line with
+  -- an optional 6th word `wake=<style>` selects how the harness' inner stream wakes its registered waker;
+  -- in the model a wake of the `WakerArray` snapshot wakes every task in it whatever the style
+  let ws0 := words line
+  let ws5 := if ws0.length == 6 && ((ws0.getD 5 "").startsWith "wake=") then ws0.take 5 else ws0
+  match ws5 with
   | [kind, base, max, rs, ws] =>
     match base.toNat?, max.toNat?, allSome ((listOf rs).map parseRItem), allSome ((listOf ws).map parseWItem) with
     | some base, some max, some rs, some ws =>
